@@ -121,7 +121,14 @@ def judge(case, ctx):
         extra_h = "BEGIN_PUBLISH\n" + "".join("int %s(int a0);\n" % n for n in names) + "END_PUBLISH\n"
         extra_i = "".join("int %s(int a0) { return a0 + %d; }\n" % (n, i) for i, n in enumerate(names))
         assert len({hash_string(n + "(int)", 5) for n in names}) == 1 and len({hash_string(n + "(int)", 11) for n in names}) == 1
-    classes = avoided + ["be." + be, "naming.%d" % case["naming"]] + ["opt." + f for f in flags] + (["two-libs"] if case["two"] else []) + (["collide.%d" % len(names)] if names else [])
+    if not case.get("literal") and "-true-names" not in flags and case["collide"] != 3:
+        # a class template exported through typedef'd instantiations (default template arguments, static member, pointer to itself)
+        extra_h = hgen.TEMPLATE_HEADER + extra_h
+        extra_i = hgen.TEMPLATE_IMPL + extra_i
+        classes_tmpl = ["template-instantiations"]
+    else:
+        classes_tmpl = []
+    classes = avoided + classes_tmpl + ["be." + be, "naming.%d" % case["naming"]] + ["opt." + f for f in flags] + (["two-libs"] if case["two"] else []) + (["collide.%d" % len(names)] if names else [])
     nodb = "-nodb" in flags
     do_module = "-do-module" in flags
     python = be != "-c"
